@@ -126,10 +126,10 @@ def run(ctx):
     obs = (obs or []) + (obs2 or [])
     if not obs:
         return
-    shard = 150
+    shard = 90
     shards = [list(range(i, min(i + shard, len(obs)))) for i in range(0, len(obs), shard)]
     texts = [HEADER % ";\n  ".join("(%s)" % to_case(obs[i]) for i in sh) for sh in shards]
-    res = ctx.coq_eval_shards("C03_cases", texts, ["M", "P"])
+    res = ctx.coq_eval_shards("C03_cases", texts, ["M", "P"], workers=12)
     nm = 0
     kinds = {}
     for o in obs:
